@@ -308,8 +308,9 @@ TokenClauses(c) ==
 InsertNeighbourSel(c) ==
   IF HasElem(c) \/ Whole(c) \/ c.stmt \/ c.form # "slice" THEN {}
   ELSE IF c.ns < NumE(c) THEN LeadSel(c, W(c), c.E[c.ns + 1].lo)
-  ELSE LET pk == {k \in Kids(c) : c.kids[k].hi <= W(c).hi} IN     \* (children of interleaved fields included)
-       IF pk = {} THEN {} ELSE TrailSel(c, W(c), SetMax({c.kids[k].hi : k \in pk}), FALSE)
+  ELSE IF c.ns >= 1 THEN TrailSel(c, W(c), c.E[c.ns].hi, FALSE)
+  ELSE LET pk == {k \in Kids(c) : W(c).lo <= c.kids[k].lo /\ c.kids[k].hi <= W(c).hi} IN   \* empty field: children of
+       IF pk = {} THEN {} ELSE TrailSel(c, W(c), SetMax({c.kids[k].hi : k \in pk}), FALSE)   \* an interleaved field
 LostClass(c) ==
   IF ~FactsOk(c) \/ ~WOk(c) THEN ""
   ELSE LET lost == Lost(c, W(c)) IN
